@@ -18,16 +18,16 @@ DefVary == EnvOr("VERIF_DEFVARY", "1") = "1"
 Choose == /\ phase = 0 /\ phase' = 1
           /\ \E par \in [NodeSet -> SUBSET NodeSet], V \in [NodeSet -> BOOLEAN], N \in [NodeSet -> BOOLEAN] :
                /\ Code(par, V, N) % Slices = SliceNo
-               /\ \E kind \in [NodeSet -> KindSet], R2 \in SUBSET NodeSet :
+               /\ \E kind \in [NodeSet -> KindSet], R2 \in SUBSET NodeSet, dup \in BOOLEAN :
                     \E R \in SUBSET R2, st \in [NodeSet -> (IF DefVary THEN {0, 10} ELSE {0})],
                        supp \in [NodeSet -> (IF DefVary THEN BOOLEAN ELSE {FALSE})] :
                       /\ \A n \in NodeSet : kind[n] # "defense" => (st[n] = 0 /\ ~supp[n])
-                      /\ cs' = [kind |-> kind, par |-> par, V |-> V, N |-> N, R |-> R, R2 |-> R2, st |-> st, supp |-> supp]
+                      /\ cs' = [kind |-> kind, par |-> par, V |-> V, N |-> N, R |-> R, R2 |-> R2, st |-> st, supp |-> supp, dup |-> dup]
 Spec == Init /\ [][Choose]_<<phase, cs>>
 G == [kind |-> cs.kind, par |-> cs.par]
 Emit == phase = 1 =>
   PrintT(ToJson([n |-> NN, kind |-> cs.kind, par |-> cs.par, V |-> cs.V, N |-> cs.N, R |-> cs.R, R2 |-> cs.R2,
-                 st |-> cs.st, supp |-> cs.supp,
+                 st |-> cs.st, supp |-> cs.supp, dup |-> cs.dup,
                  trav |-> [x \in NodeSet |-> Traversable(G, cs.V, cs.N, cs.R, x)],
                  surf |-> Surface(G, cs.V, cs.N, cs.R), surf2 |-> Surface(G, cs.V, cs.N, cs.R2),
                  dsurf |-> {x \in NodeSet : cs.kind[x] = "defense" /\ ~cs.supp[x] /\ cs.st[x] # 10},
